@@ -66,6 +66,11 @@ class Coalesce(Evaluatable[A]):
                 return getattr(member, method)(options)
             except EvaluationError as e:
                 err = e
+            except Exception as e:
+                # user code consulted while validating (a case condition, a bind
+                # function) may raise anything: the member cannot be evaluated
+                err = EvaluationError("Error during validation", member)
+                err.__cause__ = e
 
         raise err  # type: ignore
 
